@@ -9,6 +9,7 @@ import (
 
 func init() {
 	vRegister("HarnessC09_retain", HarnessC09_retain)
+	vRegister("HarnessC09_process", HarnessC09_process)
 	vRegister("HarnessC09_order", HarnessC09_order)
 	vRegister("HarnessC09_witness", HarnessC09_witness)
 }
@@ -206,4 +207,42 @@ func HarnessC09_retain() {
 		}
 	}
 	vCover("retain.checked")
+}
+
+// HarnessC09_process: evaluation is a function of its inputs and of the
+// environment AT THAT TIME, not of what an earlier evaluation in the same
+// process saw: between two evaluations a variable changes its value, or one
+// variable is replaced by another (same number of variables), or a variable
+// is added or removed; each evaluation gives what a fresh process would give.
+func HarnessC09_process() {
+	doc := map[string]any{"c": "$env:COLOR", "l": `$"c-{$env:COLOR}"`}
+	eval := func() (any, bool) {
+		outs, err := c06Eval(vCopy(doc))
+		if err != nil || len(outs) != 1 {
+			return nil, true
+		}
+		return outs[0], false
+	}
+	v1 := []string{"red", "green"}[ndChoice(2)]
+	vSetEnv("HOME=/h", "COLOR="+v1)
+	o1, e1 := eval()
+	vAssert("C09.process.first", !e1 && vEq(o1, map[string]any{"c": v1, "l": "c-" + v1}))
+	switch ndChoice(4) {
+	case 0: // same variable, new value
+		vSetEnv("HOME=/h", "COLOR=blue")
+		o2, e2 := eval()
+		vAssert("C09.process.changed", !e2 && vEq(o2, map[string]any{"c": "blue", "l": "c-blue"}))
+	case 1: // the variable is gone, another one took its place
+		vSetEnv("HOME=/h", "SHADE=dark")
+		_, e2 := eval()
+		vAssert("C09.process.removed", e2)
+	case 2: // one more variable, the value changed as well
+		vSetEnv("HOME=/h", "COLOR=blue", "EXTRA=1")
+		o2, e2 := eval()
+		vAssert("C09.process.added", !e2 && vEq(o2, map[string]any{"c": "blue", "l": "c-blue"}))
+	default: // nothing changed: the same result again
+		o2, e2 := eval()
+		vAssert("C09.process.same", !e2 && vEq(o2, o1))
+	}
+	vCover("process.checked")
 }
